@@ -75,6 +75,7 @@ def mandatory_bins(tier):
     b += ["block_key%d" % k for k in (16, 24, 32)]
     b += ["mode_" + m for m in ("ecb", "cbc", "cfb", "ofb", "ctr")]
     b += ["cfb_seg%d" % s for s in range(1, 17)]
+    b += ["cbc_default_iv", "cfb_default_iv", "ofb_default_iv", "ctr_default_counter"]
     b += ["ctr_wraparound", "ctr_carry", "all_compositions", "empty_chunk", "feeder_pkcs7", "feeder_none", "stream_bs1", "stream_bs15", "stream_bs16", "stream_bs17", "stream_bs8192", "stream_with_short_reads",
           "adapter_history", "adapter_shared_key_iv", "adapter_trailing_zero_plaintext", "adapter_len_mod16_0", "adapter_len_mod16_1", "adapter_len_mod16_15", "adapter_explicit_iv", "adapter_default_iv", "adapter_long_data", "global_state_unchanged"]
     return b
@@ -159,6 +160,8 @@ def make_mode(ns, mode, key, iv, seg, ctr0):
     if mode == "ofb":
         return a.AESModeOfOperationOFB(key, iv)
     if mode == "ctr":
+        if ctr0 == 1:
+            return a.AESModeOfOperationCTR(key)  # default counter (starts at 1)
         return a.AESModeOfOperationCTR(key, a.Counter(initial_value=ctr0))
     raise ValueError(mode)
 
@@ -186,6 +189,10 @@ def ref_mode(mode, key, iv, seg, ctr0, data, enc):
 def direct_mode_case(ns, ctx, mode, key, iv, seg, ctr0, data, parts, enc, rp):
     """mode object used directly; chunk lengths must respect the mode's granularity"""
     m = make_mode(ns, mode, key, iv, seg, ctr0)
+    if iv is None and mode in ("cbc", "cfb", "ofb"):
+        ctx.bin(mode + "_default_iv")
+    if mode == "ctr" and ctr0 == 1:
+        ctx.bin("ctr_default_counter")
     f = m.encrypt if enc else m.decrypt
     try:
         got = b"".join(f(c) for c in cut(data, parts))
@@ -243,8 +250,6 @@ def feeder_case(ns, ctx, mode, key, iv, seg, ctr0, data, parts, padding, rp):
 def gen_params(rng, mode):
     key = rng.randbytes(rng.choice((16, 24, 32)))
     iv = rng.randbytes(16) if rng.random() < 0.85 else None
-    if mode == "cfb" and iv is None and rng.random() < 0.5:
-        iv = bytes(16)
     seg = rng.randrange(1, 17) if mode == "cfb" else 0
     r = rng.random()
     if r < 0.25:
@@ -367,8 +372,6 @@ def run_shard(spec, ctx):
                     parts.append(c)
                     left -= c
                 parts = tuple(parts)
-                if iv is None:
-                    iv = bytes(16)
             else:
                 parts = rand_chunks(rng, n)
             data = rng.randbytes(n)
@@ -396,8 +399,6 @@ def run_shard(spec, ctx):
         for i in range(spec["n"]):
             mode = modes[i % 5]
             key, iv, seg, ctr0 = gen_params(rng, mode)
-            if mode == "cfb" and iv is None:
-                iv = bytes(16)
             n = mode_len(rng, mode, seg)
             padding = "default" if i % 2 == 0 else "none"
             if padding == "none" and mode in ("ecb", "cbc"):
